@@ -1,5 +1,6 @@
 import MinterModel.QEval
 import MinterModel.QRlp
+import MinterModel.BancorQ
 /-
   Dispatcher over every component's `Q` evaluator.  A component adds one line here.
 -/
@@ -9,5 +10,6 @@ namespace Minter
 def evalQ (fn : String) (args : List String) : Option String :=
   evalKernels fn (args.map intD)
   <|> Rlp.rlpEvalQ fn args
+  <|> bancorEvalQ fn args
 
 end Minter
